@@ -141,6 +141,9 @@ fn run_chains(cfgs: Vec<Arc<ChainCfg>>, max_states: u64) -> Report {
                     replay: json!({"cfg_index": i, "request": cfg.req.to_json(), "trace": f.trace.iter().map(|a| act_json(a, cfg)).collect::<Vec<_>>()}),
                 });
             }
+            if ex.found.is_empty() && !ex.cap_hit && (i % 6 == 0) {
+                crate::sr::cross_check(ChainSt::new(cfg.clone()).unwrap(), ex.states, "redirect-chain graph", &mut rep);
+            }
             if ex.found.is_empty() {
                 match validate_traces(|| ChainSt::new(cfg.clone()).unwrap(), &ex) {
                     Ok(n) => rep.traces_validated += n,
